@@ -5,6 +5,7 @@ import (
 	"os"
 	"strings"
 	"testing"
+	. "verifharness/hist"
 
 	"github.com/google/reftable"
 	"pgregory.net/rapid"
@@ -13,7 +14,7 @@ import (
 )
 
 const (
-	sAdd = iota
+	sAdd      = iota
 	sAddition // NewAddition + Add + Commit
 	sCompactAll
 	sAutoCompact
@@ -42,7 +43,7 @@ func genC09(t *rapid.T) c09Case {
 	for i := 0; i < c.NHandles; i++ {
 		c.Auto = append(c.Auto, rapid.Bool().Draw(t, "auto"))
 	}
-	o := TxOpts{Pool: safePool[:rapid.IntRange(2, 6).Draw(t, "npool")], MaxRefs: 3, MaxLogs: 2,
+	o := TxOpts{Pool: SafePool[:rapid.IntRange(2, 6).Draw(t, "npool")], MaxRefs: 3, MaxLogs: 2,
 		HashSize: c.Cfg.HashSize(), Exact: c.Cfg.Exact, DelWeight: 2}
 	n := rapid.IntRange(4, 30).Draw(t, "nops")
 	for i := 0; i < n; i++ {
